@@ -904,7 +904,7 @@ pub fn run(id: &str, ctx: &mut Ctx) -> (String, Value, Vec<String>) {
     let assumptions = vec![
         "scheduler/job/preemption model of DESIGN.md §4.3-4.4 is the platform the property talks about".to_string(),
         "arrival automata of §4.2 generate exactly the documented processes (self-validated in C10)".to_string(),
-        "parameter boxes as listed; per system: pending-job caps (hep 6, lower-priority 2, burst 8) — hits are counted".to_string(),
+        "parameter boxes as listed; per system: pending-job caps (hep 8, lower-priority 2 / busy-window-sized for strictly periodic tasks, burst 8) — hits are counted".to_string(),
         "unit-time discretisation; distinct FP priorities; scalar WCETs".to_string(),
     ];
     ("model_checking".to_string(), cov, assumptions)
